@@ -313,6 +313,29 @@ where
                         .map_err(|_| InternalError::from(ERRMSG_HANDLE_DROPPED))?;
                 }
             }
+            RxPacket::Pubrec(pubrec) => {
+                // A PUBREC with reason >= 0x80 ends the QoS 2 exchange and frees its slot.
+                let failed = pubrec.reason as u8 >= 0x80;
+                let rx_packet = RxPacket::Pubrec(pubrec);
+                let action_id = utils::rx_action_id(&rx_packet);
+
+                if failed && connection.send_quota != connection.remote_receive_maximum {
+                    connection.send_quota += 1;
+                }
+
+                // The PUBLISH has been received, it must not be sent again.
+                utils::linear_search_by_key(&session.retrasmit_queue, action_id)
+                    .and_then(|pos| session.retrasmit_queue.remove(pos));
+
+                if let Some((_, sender)) =
+                    utils::linear_search_by_key(&session.awaiting_ack, action_id)
+                        .and_then(|pos| session.awaiting_ack.remove(pos))
+                {
+                    sender
+                        .send(Ok(rx_packet))
+                        .map_err(|_| InternalError::from(ERRMSG_HANDLE_DROPPED))?;
+                }
+            }
             RxPacket::Pubcomp(pubcomp) => {
                 let rx_packet = RxPacket::Pubcomp(pubcomp);
                 let action_id = utils::rx_action_id(&rx_packet);
